@@ -15,6 +15,8 @@ pub(crate) enum OperationType {
     TryUpdateActiveBlob = 5,
     DeferredDumpBlobIndexes = 6,
     TryFsyncData = 7,
+    #[cfg(feature = "verif")]
+    VerifBarrier = 100,
 }
 
 #[derive(Debug)]
@@ -40,11 +42,22 @@ pub type ActiveBlobPred = fn(Option<ActiveBlobStat>) -> bool;
 pub(crate) struct Msg {
     pub(crate) optype: OperationType,
     pub(crate) predicate: Option<ActiveBlobPred>,
+    #[cfg(feature = "verif")]
+    pub(crate) barrier: Option<Arc<Semaphore>>,
+    #[cfg(feature = "verif")]
+    pub(crate) barrier_flush_deferred: bool,
 }
 
 impl Msg {
     pub(crate) fn new(optype: OperationType, predicate: Option<ActiveBlobPred>) -> Self {
-        Self { optype, predicate }
+        Self {
+            optype,
+            predicate,
+            #[cfg(feature = "verif")]
+            barrier: None,
+            #[cfg(feature = "verif")]
+            barrier_flush_deferred: false,
+        }
     }
 }
 
@@ -148,6 +161,44 @@ where
     pub(crate) async fn try_fsync_data(&self) {
         self.send_msg(Msg::new(OperationType::TryFsyncData, None))
             .await
+    }
+
+    /// Verification probe: is the worker task still running
+    #[cfg(feature = "verif")]
+    pub(crate) fn verif_worker_alive(&self) -> bool {
+        match &self.state {
+            ObserverState::Running(_, handle) => !handle.is_finished(),
+            _ => false,
+        }
+    }
+
+    /// Verification probe: returns `true` once the worker has processed every message sent before,
+    /// joined the index-dump and fsync tasks it spawned and (with `flush_deferred`) waited for and
+    /// processed a pending deferred dump;
+    /// returns `false` if the worker is not running (any more)
+    #[cfg(feature = "verif")]
+    pub(crate) async fn verif_barrier(&self, flush_deferred: bool) -> bool {
+        let sem = Arc::new(Semaphore::new(0));
+        let mut msg = Msg::new(OperationType::VerifBarrier, None);
+        msg.barrier = Some(sem.clone());
+        msg.barrier_flush_deferred = flush_deferred;
+        if let ObserverState::Running(sender, handle) = &self.state {
+            if sender.send(msg).await.is_err() {
+                return false;
+            }
+            loop {
+                match tokio::time::timeout(Duration::from_millis(5), sem.acquire()).await {
+                    Ok(_) => return true,
+                    Err(_) => {
+                        if handle.is_finished() {
+                            return false;
+                        }
+                    }
+                }
+            }
+        } else {
+            false
+        }
     }
 
     async fn send_msg(&self, msg: Msg) {
